@@ -67,7 +67,8 @@ def r2(ctx):
 
 
 def r3(ctx):
-    tables.string_table(ctx, "operators::Op::from", oracles.OP_SPELLINGS, "operator")
+    """every documented operator spelling, in any letter case, denotes its operator: Op::from evaluated on all of them"""
+    tables.string_table_eval(ctx, "operators::Op::from", oracles.OP_SPELLINGS, "operator")
 
 
 def r4(ctx):
@@ -245,6 +246,8 @@ RULES = [
     ("X-LITVALUE", "a literal evaluates to the text written in the query (patterns, size literals, arguments) [shared]", lambda ctx: __import__("extra2").literal_is_its_text(ctx)),
     ("C13-R2", "date literals: interval table of parse_datetime, captures of the extracted regex [shared with C13]", lambda ctx: __import__("c13").r2(ctx)),
     ("C13-R3", "date regex groups and their use, output format, local-time conversion of time columns [shared with C13]", lambda ctx: __import__("c13").r3(ctx)),
+    ("X-OPERANDS", "each operand of a comparison is evaluated afresh (no memo shared between operands or conditions: a remembered value comes back as text) [shared]", lambda ctx: __import__("conf").operands_evaluated_afresh(ctx)),
+    ("X-NAMES", "column names and function names do not overlap (a bare word is tried as a column first) [shared]", lambda ctx: __import__("extra2").names_disjoint(ctx)),
 ]
 
 EXPLANATION = (
